@@ -453,7 +453,7 @@ func c14Gen(r *mon.Rand) []string {
 	}
 	stray := func() {
 		if r.Chance(1, 14) {
-			argv = append(argv, mon.Pick(r, []string{"extra", "always", "/etc/shadow", "uid=0", "-", "--", "-x", "-h", "all", "x y", "", " ", "\t", "0"}))
+			argv = append(argv, mon.Pick(r, []string{"extra", "always", "/etc/shadow", "uid=0", "-", "--", "-x", "-h", "all", "x y", "", " ", "\t", "0", "#", "#", "#comment", "#-k", "a#b"}))
 		}
 	}
 	kind := r.Intn(10)
@@ -564,7 +564,7 @@ func c14Gen(r *mon.Rand) []string {
 func init() {
 	register(&mon.CheckSpec{
 		ID: "C14", Level: "exploration",
-		Rule: "cases = argv lists built from a grammar (-a/-A in both orders and with bad parts, -F with valid fields and junk before the field name, every operator and operator look-alike, values containing spaces, tabs, newlines, '=', operator characters, quotes, backslashes; -C; -S/-k comma lists; -p; -w; -D; repeated single-valued flags; stray positional words, '-', '--', unknown flags at every position; delete/watch/syscall flags mixed two and three ways; a flag missing its argument; a broken last word that leaves a quote or a backslash escape open) joined with the harness's own POSIX single-quote quoting, so the argv is known independently of the library's tokenizer. Every faithfully accepted line is parsed a second time after the caller changed the returned rule (the second result must again be the rule of the line), and the twin line that has the same characters without the quotes around words with blanks is judged right afterwards in the same process. The harness interprets the argv itself: either 'must be rejected' (with the reason) or the exact rule a faithful parse returns. distinct_nontrivial = distinct lines that contain a quoted argument, a stray word, a repeated flag or a filter whose value holds an operator character or blank.",
+		Rule: "cases = argv lists built from a grammar (-a/-A in both orders and with bad parts, -F with valid fields and junk before the field name, every operator and operator look-alike, values containing spaces, tabs, newlines, '=', operator characters, quotes, backslashes; -C; -S/-k comma lists; -p; -w; -D; repeated single-valued flags; stray positional words (also '#', '#comment': a rule line has no comments), '-', '--', unknown flags at every position; delete/watch/syscall flags mixed two and three ways; a flag missing its argument; a broken last word that leaves a quote or a backslash escape open) joined with the harness's own POSIX single-quote quoting, so the argv is known independently of the library's tokenizer. Every faithfully accepted line is parsed a second time after the caller changed the returned rule (the second result must again be the rule of the line), and the twin line that has the same characters without the quotes around words with blanks is judged right afterwards in the same process. The harness interprets the argv itself: either 'must be rejected' (with the reason) or the exact rule a faithful parse returns. distinct_nontrivial = distinct lines that contain a quoted argument, a stray word, a repeated flag or a filter whose value holds an operator character or blank.",
 		Assumptions: []string{
 			"an error result is always acceptable (statement: error OR faithful rule); the accepted fraction is reported and a run that accepts nothing is inconclusive",
 			"blanks around list items and between a filter's field name and its operator are compared trimmed (the value of a filter is compared exactly); a repeated single-valued flag with identical values is accepted",
